@@ -78,11 +78,15 @@ def top_bits(model, sig, lo=0, hi=None):
     return out
 
 
-def affine_cone(model, roots, data_bits, state_cells, wiring_only=False):
+def affine_cone(model, roots, data_bits, state_cells, wiring_only=False, through_registers=False):
     """Walk the combinational cone of `roots` (iterable of nir nets).  Allowed on the data path: constants, the given
     top-level data input bits, outputs of the given register cells, '^' and '~' operators (none if wiring_only),
     and selections ('m' operators / assignment lists) whose selectors depend on *control* inputs only, where
     control := every top-level input bit that is not in data_bits.  Anything else raises ConeError.
+    With through_registers the walk continues through flip-flops: a register on the data path is a pipeline stage
+    (its own input cone must again be wiring/selection), a register feeding a selector is control state (its input
+    cone must depend on control inputs and control state only).  The function of the input *history* is then still
+    bitwise wiring for every fixed control history.
     Returns dict(cells=Counter by kind, data_support=set of data bits used, state_support=set of (cell,bit),
     control_support=set of control bits steering selections)."""
     cells = model.comp.cells
@@ -99,6 +103,10 @@ def affine_cone(model, roots, data_bits, state_cells, wiring_only=False):
         if n.cell in seen_ctrl: return
         seen_ctrl.add(n.cell)
         c = cells[n.cell]
+        if isinstance(c, nir.FlipFlop) and through_registers:
+            kinds["control-register"] += 1
+            for m in c.data: ctrl_net(m, why + f" via register cell {n.cell}")
+            return
         if isinstance(c, (nir.FlipFlop, nir.SyncReadPort, nir.AsyncReadPort, nir.Memory)):
             raise ConeError(f"{why}: selector depends on stored state (cell {n.cell} {type(c).__name__})")
         for m in c.input_nets():
@@ -112,9 +120,15 @@ def affine_cone(model, roots, data_bits, state_cells, wiring_only=False):
             data_support.add(n.bit); return
         c = cells[n.cell]
         if isinstance(c, nir.FlipFlop):
-            if n.cell not in state_cells:
+            if n.cell in state_cells:
+                state_support.add((n.cell, n.bit)); return
+            if not through_registers:
                 raise ConeError(f"cone reads register cell {n.cell} which is not part of the declared state")
-            state_support.add((n.cell, n.bit)); return
+            if n.cell in seen_data: return
+            seen_data.add(n.cell)
+            kinds["pipeline-register"] += 1
+            for m in c.data: data_net(m)
+            return
         if n.cell in seen_data: return
         seen_data.add(n.cell)
         if isinstance(c, nir.Operator) and c.operator in ("^", "~") and not wiring_only:
